@@ -71,13 +71,46 @@ class Ctx:
                         shutil.copy(os.path.join(sd, f), d)
         return d
 
+    def private_specdir(self):
+        """A private copy of the spec directory (for TLC runs in parallel threads)."""
+        src = self.specdir()
+        d = tempfile.mkdtemp(prefix="spec-", dir=self.scratch)
+        for f in os.listdir(src):
+            if f.endswith((".tla", ".cfg")):
+                shutil.copy(os.path.join(src, f), d)
+        return d
+
+    def validate_parallel(self, module, cfg, chunk_paths, jobs=4, workers=2, timeout=900):
+        """Monitor-validate several trace chunks concurrently. Returns a list of
+        (ok, l, invariant, out) in the order of chunk_paths."""
+        from concurrent.futures import ThreadPoolExecutor
+        self.specdir()
+        dirs = [self.private_specdir() for _ in range(min(jobs, len(chunk_paths)))]
+        import queue
+        free = queue.Queue()
+        for d in dirs:
+            free.put(d)
+
+        def one(path):
+            d = free.get()
+            try:
+                r = self.tlc(module, cfg, workers=workers, timeout=timeout, files={"trace.ndjson": path},
+                             allow_violation=True, tag="trace:" + cfg, specdir=d)
+                if r["violated"]:
+                    return False, self.trace_state_l(r["out"]), r["violated"], r["out"]
+                return True, None, None, r["out"]
+            finally:
+                free.put(d)
+        with ThreadPoolExecutor(max_workers=len(dirs)) as ex:
+            return list(ex.map(one, chunk_paths))
+
     def tlc(self, module, cfg, workers=None, timeout=600, extra=(), files=None,
             simulate=None, depth=None, deadlock=False, coverage=False,
-            allow_violation=False, tag=None, heap=None, stack=None):
+            allow_violation=False, tag=None, heap=None, stack=None, specdir=None):
         """Run TLC on spec/<module>.tla with config <cfg> (file name in spec/mc
         or spec/trace). Returns dict(ok, out, generated, distinct, violated,
         err). Raises Inconclusive on tool failure/timeouts."""
-        d = self.specdir()
+        d = specdir or self.specdir()
         for name, src in (files or {}).items():
             dst = os.path.join(d, name)
             if os.path.abspath(src) != os.path.abspath(dst):
